@@ -29,6 +29,8 @@ type client41 struct {
 
 	alive     bool
 	lastRenew time.Time
+	// lastContact: see client40.
+	lastContact time.Time
 
 	sessions []*session41
 	opens    map[string]map[string]*open41
@@ -122,6 +124,8 @@ func (w *world) client41(owner string) *client41 {
 	return c
 }
 
+func (c *client41) touch() { c.lastContact = c.w.clk.Now() }
+
 func (c *client41) renew() {
 	c.alive = true
 	c.lastRenew = c.w.clk.Now()
@@ -149,6 +153,15 @@ func (c *client41) session() *session41 {
 }
 
 func (w *world) anySession41() *client41 {
+	// Prefer a session the server still knows (the bookkeeper's flag may be
+	// stale after a poke that made the server collect an expired client).
+	for _, c := range sortedClients41(w) {
+		if s := c.session(); s != nil {
+			if _, ok := w.names41["sess:"+fmt.Sprintf("%x", s.id[:])]; ok {
+				return c
+			}
+		}
+	}
 	for _, c := range sortedClients41(w) {
 		if c.session() != nil {
 			return c
@@ -182,7 +195,7 @@ func (c *client41) key() string {
 		if c.alive {
 			age = w.clk.Now().Sub(c.lastRenew).String()
 		}
-		fmt.Fprintf(&b, " id=%s/%d cs=%d renewed=%s", name(c.id), c.idVerf, c.csNext[c.id], age)
+		fmt.Fprintf(&b, " id=%s/%d cs=%d renewed=%s %s", name(c.id), c.idVerf, c.csNext[c.id], age, w.contactKey(1, c.lastContact))
 	}
 	b.WriteString("\n")
 	for i, s := range c.sessions {
@@ -273,6 +286,7 @@ func (c *client41) checkEntitlements(f failer) {
 // ---------------------------------------------------------------------------
 
 func (c *client41) exchangeID(f failer, verifier byte) {
+	c.touch()
 	res := c.w.compound(1, "EXCHANGE_ID", &nfsv4.NfsArgop4_OP_EXCHANGE_ID{OpexchangeId: nfsv4.ExchangeId4args{
 		EiaClientowner:  nfsv4.ClientOwner4{CoVerifier: nfsv4.Verifier4{verifier}, CoOwnerid: []byte(c.owner)},
 		EiaStateProtect: &nfsv4.StateProtect4A_SP4_NONE{},
@@ -298,6 +312,7 @@ func createSessionArgs(id uint64, seq uint32) nfsv4.NfsArgop4 {
 
 // createSession sends CREATE_SESSION for the given client ID.
 func (c *client41) createSession(f failer, id uint64, verf byte) nfsv4.Nfsstat4 {
+	c.touch()
 	w := c.w
 	seq := c.csNext[id]
 	if mc.Active("C19") {
@@ -359,6 +374,7 @@ func (c *client41) sequence(f failer, what string, ops ...nfsv4.NfsArgop4) *nfsv
 }
 
 func (c *client41) sequenceOn(f failer, slot uint32, what string, ops ...nfsv4.NfsArgop4) *nfsv4.Compound4res {
+	c.touch()
 	w := c.w
 	s := c.session()
 	if s == nil {
@@ -413,12 +429,56 @@ func (c *client41) sequenceOn(f failer, slot uint32, what string, ops ...nfsv4.N
 				f.FailP("C19", "false-retry-answered/SEQUENCE", "a different request (%d x GETFH) sent with the slot and sequence number of %s was answered %d (%d results) instead of NFS4ERR_SEQ_FALSE_RETRY", n, what, res3.Status, len(res3.Resarray))
 			}
 		}
+		// Same slot and number, and the SAME leading operations as the
+		// original: strict extensions (the original plus appended
+		// operations) and the strict prefix (the original without its
+		// last operation). A server that compares a false retry with the
+		// cached reply operation by operation must still notice the
+		// different length. If the original succeeded (NFS4_OK: every
+		// operation was evaluated, so the cached reply has exactly as
+		// many results as the original had operations) a request of
+		// another length is provably a different request and must never
+		// be answered with the original's cached reply. If the original
+		// FAILED, its evaluation stopped early and the cached reply is
+		// legitimately shorter than the request (RFC 8881, section
+		// 2.10.6.1.3.1): the server cannot tell these variants from a
+		// retransmission, so the cached reply is accepted as well.
+		type variant struct {
+			name string
+			ops  []nfsv4.NfsArgop4
+		}
+		var variants []variant
+		if 1+len(ops)+1 <= maxOps41 {
+			variants = append(variants, variant{"the original plus PUTROOTFH", append(build(next), &nfsv4.NfsArgop4_OP_PUTROOTFH{})})
+		}
+		if len(ops) > 0 && 1+len(ops)+2 <= maxOps41 {
+			variants = append(variants, variant{"the original plus a copy of its last operation and GETFH", append(build(next), ops[len(ops)-1], &nfsv4.NfsArgop4_OP_GETFH{})})
+		}
+		if len(ops) > 0 {
+			all := build(next)
+			variants = append(variants, variant{"the original without its last operation", all[:len(all)-1]})
+		}
+		for _, v := range variants {
+			res4 := w.compound(1, what+"(false retry: "+v.name+")", v.ops...)
+			switch {
+			case res4.Status == nfsv4.NFS4ERR_SEQ_FALSE_RETRY:
+			case s.nocache && res4.Status == nfsv4.NFS4ERR_RETRY_UNCACHED_REP:
+			case res.Status != nfsv4.NFS4_OK && bytes.Equal(encodeRes(res), encodeRes(res4)):
+				// Failed original: indistinguishable from a
+				// retransmission.
+			default:
+				f.FailP("C19", "false-retry-answered/SEQUENCE", "a different request (%s: %d operations instead of %d) sent with the slot and sequence number of %s (answered %d, %d results) was answered %d (%d results, identical to the original's reply: %v) instead of NFS4ERR_SEQ_FALSE_RETRY", v.name, len(v.ops), 1+len(ops), what, res.Status, len(res.Resarray), res4.Status, len(res4.Resarray), bytes.Equal(encodeRes(res), encodeRes(res4)))
+			}
+		}
 		if after := w.snapshot(); after != before {
 			f.FailP("C19", "retransmission-side-effect/SEQUENCE", "retransmitted %s (first reply %d) changed state:\n--- before\n%s\n--- after\n%s", what, res.Status, before, after)
 		}
 	}
 	return res
 }
+
+// maxOps41 is ca_maxoperations of the sessions (newWorld, createSessionArgs).
+const maxOps41 = 8
 
 type claim41 int
 
@@ -431,6 +491,14 @@ const (
 func (k claim41) String() string { return [...]string{"CLAIM_NULL", "CLAIM_FH", "CLAIM_PREVIOUS"}[k] }
 
 func (c *client41) open(f failer, ownerName, file string, access uint32, how openHow, claim claim41) nfsv4.Nfsstat4 {
+	_, st := c.openTail(f, ownerName, file, access, how, claim)
+	return st
+}
+
+// openTail sends {SEQUENCE, PUTROOTFH|PUTFH, OPEN, GETFH, tail...} and books
+// the OPEN; the results of the tail are left to the caller (they start at
+// index 4 of the reply).
+func (c *client41) openTail(f failer, ownerName, file string, access uint32, how openHow, claim claim41, tail ...nfsv4.NfsArgop4) (*nfsv4.Compound4res, nfsv4.Nfsstat4) {
 	w := c.w
 	if c.opens[ownerName] == nil {
 		c.opens[ownerName] = map[string]*open41{}
@@ -445,7 +513,7 @@ func (c *client41) open(f failer, ownerName, file string, access uint32, how ope
 			leaf = w.fs.linked[file]
 		}
 		if leaf == nil {
-			return nfsv4.NFS4ERR_NOENT
+			return nil, nfsv4.NFS4ERR_NOENT
 		}
 		first = putfh(leaf.handle)
 		if claim == claimFH {
@@ -454,23 +522,27 @@ func (c *client41) open(f failer, ownerName, file string, access uint32, how ope
 			cl = &nfsv4.OpenClaim4_CLAIM_PREVIOUS{DelegateType: nfsv4.OPEN_DELEGATE_NONE}
 		}
 	}
-	res := c.sequence(f, fmt.Sprintf("OPEN41(%s,%s,%s%s)", c.owner, ownerName, file, c.cidField), first, &nfsv4.NfsArgop4_OP_OPEN{Opopen: nfsv4.Open4args{
+	what := fmt.Sprintf("OPEN41(%s,%s,%s%s)", c.owner, ownerName, file, c.cidField)
+	if len(tail) > 0 {
+		what += fmt.Sprintf("+%d more operations", len(tail))
+	}
+	res := c.sequence(f, what, append([]nfsv4.NfsArgop4{first, &nfsv4.NfsArgop4_OP_OPEN{Opopen: nfsv4.Open4args{
 		ShareAccess: access, ShareDeny: nfsv4.OPEN4_SHARE_DENY_NONE,
 		Owner: nfsv4.OpenOwner4{Clientid: c.ownerCID(), Owner: []byte(ownerName)}, Openhow: openflag(how), Claim: cl,
-	}}, &nfsv4.NfsArgop4_OP_GETFH{})
+	}}, &nfsv4.NfsArgop4_OP_GETFH{}}, tail...)...)
 	if res == nil {
-		return nfsv4.NFS4ERR_BADSESSION
+		return nil, nfsv4.NFS4ERR_BADSESSION
 	}
 	st := opStatus(res, 2)
-	if res.Status != nfsv4.NFS4_OK || len(res.Resarray) < 4 {
-		return st
+	if len(res.Resarray) < 4 || st != nfsv4.NFS4_OK || opStatus(res, 3) != nfsv4.NFS4_OK {
+		return res, st
 	}
 	ok := res.Resarray[2].(*nfsv4.NfsResop4_OP_OPEN).Opopen.(*nfsv4.Open4res_NFS4_OK)
 	fh := res.Resarray[3].(*nfsv4.NfsResop4_OP_GETFH).Opgetfh.(*nfsv4.Getfh4res_NFS4_OK)
 	leaf := w.fs.leafByHandle(fh.Resok4.Object)
 	if leaf == nil {
 		f.FailP("C18", "open-unknown-filehandle", "OPEN returned unknown file handle %q", fh.Resok4.Object)
-		return st
+		return res, st
 	}
 	if cur := c.opens[ownerName][file]; cur != nil && cur.leaf == leaf && cur.valid && !cur.gone && cur.sid.Other == ok.Resok4.Stateid.Other {
 		cur.bits |= access
@@ -481,7 +553,104 @@ func (c *client41) open(f failer, ownerName, file string, access uint32, how ope
 		}
 		c.opens[ownerName][file] = &open41{ownerName: ownerName, leaf: leaf, sid: ok.Resok4.Stateid, bits: access, valid: true, locks: map[string]*lock41{}}
 	}
-	return st
+	return res, st
+}
+
+// ---------------------------------------------------------------------------
+// The current state ID across a change of the current filehandle.
+//
+// OPEN, OPEN_DOWNGRADE, LOCK and LOCKU make their state ID the COMPOUND's
+// "current state ID"; every operation that replaces the current filehandle
+// (PUTFH, PUTROOTFH, LOOKUP, RESTOREFH of another saved pair, ...) replaces
+// it as well (RFC 8881, section 16.2.3.1.2). A later operation that presents
+// the special current state ID while the current filehandle is ANOTHER file
+// must therefore not reach the state of the first file: "state IDs are
+// honoured only for the file ... they were issued for".
+
+// csidUser is one operation that presents the current state ID.
+type csidUser struct {
+	name string
+	// io: READ / WRITE / SETATTR. Since the filehandle-changing
+	// operations set the current state ID to the anonymous one, these may
+	// also be served like anonymous I/O on the NEW current file; the
+	// state-changing operations can only be refused.
+	io bool
+	op func(c *client41) nfsv4.NfsArgop4
+}
+
+func csidUsers() []csidUser {
+	return []csidUser{
+		{"READ", true, func(c *client41) nfsv4.NfsArgop4 { return ioOp(ioRead, currentSID) }},
+		{"WRITE", true, func(c *client41) nfsv4.NfsArgop4 { return ioOp(ioWrite, currentSID) }},
+		{"SETATTR", true, func(c *client41) nfsv4.NfsArgop4 { return ioOp(ioSetattr, currentSID) }},
+		{"CLOSE", false, func(c *client41) nfsv4.NfsArgop4 {
+			return &nfsv4.NfsArgop4_OP_CLOSE{Opclose: nfsv4.Close4args{OpenStateid: currentSID}}
+		}},
+		{"OPEN_DOWNGRADE", false, func(c *client41) nfsv4.NfsArgop4 {
+			return &nfsv4.NfsArgop4_OP_OPEN_DOWNGRADE{OpopenDowngrade: nfsv4.OpenDowngrade4args{OpenStateid: currentSID, ShareAccess: accRead}}
+		}},
+		{"LOCK(open_to_lock_owner4)", false, func(c *client41) nfsv4.NfsArgop4 {
+			return &nfsv4.NfsArgop4_OP_LOCK{Oplock: nfsv4.Lock4args{Locktype: nfsv4.READ_LT, Offset: 7, Length: 1,
+				Locker: &nfsv4.Locker4_TRUE{OpenOwner: nfsv4.OpenToLockOwner4{OpenStateid: currentSID, LockOwner: nfsv4.LockOwner4{Clientid: c.id, Owner: []byte("L8")}}}}}
+		}},
+		{"LOCK(exist_lock_owner4)", false, func(c *client41) nfsv4.NfsArgop4 {
+			return &nfsv4.NfsArgop4_OP_LOCK{Oplock: nfsv4.Lock4args{Locktype: nfsv4.READ_LT, Offset: 7, Length: 1,
+				Locker: &nfsv4.Locker4_FALSE{LockOwner: nfsv4.ExistLockOwner4{LockStateid: currentSID}}}}
+		}},
+		{"LOCKU", false, func(c *client41) nfsv4.NfsArgop4 {
+			return &nfsv4.NfsArgop4_OP_LOCKU{Oplocku: nfsv4.Locku4args{Locktype: nfsv4.WRITE_LT, LockStateid: currentSID, Offset: 0, Length: 1}}
+		}},
+	}
+}
+
+func lookupOp(name string) nfsv4.NfsArgop4 {
+	return &nfsv4.NfsArgop4_OP_LOOKUP{Oplookup: nfsv4.Lookup4args{Objname: name}}
+}
+
+// csidWatch remembers the counters of the file the current state ID was
+// issued for (a) and of the file that is the current filehandle when it is
+// presented (b).
+type csidWatch struct {
+	a, b      *fakeLeaf
+	aIO, bAll string
+}
+
+func watchCSID(a, b *fakeLeaf) csidWatch {
+	return csidWatch{a: a, b: b, aIO: a.ioCounters(), bAll: b.allCounters()}
+}
+
+// judge evaluates the answer st to user u, which presented the current state
+// ID of a while b was the current filehandle.
+func (cw csidWatch) judge(f failer, what string, u csidUser, st nfsv4.Nfsstat4) {
+	const misuse = "current-stateid-other-file"
+	switch {
+	case st == nfsv4.NFS4_OK && !u.io:
+		f.FailP("C18", "honoured-"+misuse, "%s: %s with the current state ID, which was issued for %s, succeeded although the current filehandle had been changed to %s", what, u.name, cw.a.id, cw.b.id)
+	case st == nfsv4.NFS4_OK:
+		if after := cw.a.ioCounters(); after != cw.aIO {
+			f.FailP("C18", "honoured-"+misuse, "%s: %s with the current state ID after the current filehandle had been changed from %s to %s was served from %s: %s -> %s", what, u.name, cw.a.id, cw.b.id, cw.a.id, cw.aIO, after)
+		}
+	default:
+		if aAfter, bAfter := cw.a.ioCounters(), cw.b.allCounters(); aAfter != cw.aIO || bAfter != cw.bAll {
+			f.FailP("C18", "refused-but-changed-"+misuse, "%s: %s with the current state ID of %s at filehandle %s was refused with %d but had side effects: %s %s -> %s %s", what, u.name, cw.a.id, cw.b.id, st, cw.aIO, cw.bAll, aAfter, bAfter)
+		}
+	}
+}
+
+// openSwitchUse: {OPEN file (sets the current state ID), GETFH, PUTFH other |
+// PUTROOTFH+LOOKUP other, u(current state ID)} in one COMPOUND.
+func (c *client41) openSwitchUse(f failer, ownerName, file string, access uint32, other string, viaLookup bool, u csidUser) {
+	w := c.w
+	a, b := w.fs.linked[file], w.fs.linked[other]
+	change := []nfsv4.NfsArgop4{putfh(b.handle)}
+	if viaLookup {
+		change = []nfsv4.NfsArgop4{&nfsv4.NfsArgop4_OP_PUTROOTFH{}, lookupOp(other)}
+	}
+	cw := watchCSID(a, b)
+	res, _ := c.openTail(f, ownerName, file, access, howNoCreate, claimNull, append(change, u.op(c))...)
+	if idx := 4 + len(change); res != nil && idx < len(res.Resarray) {
+		cw.judge(f, fmt.Sprintf("{OPEN %s by %s/%s, change of the current filehandle to %s, %s}", file, c.owner, ownerName, other, u.name), u, opStatus(res, idx))
+	}
 }
 
 // currentSID is the NFSv4.1 "current state ID" special value: it refers
@@ -770,6 +939,7 @@ func (c *client41) testStateids(f failer) {
 }
 
 func (c *client41) destroySession(f failer) nfsv4.Nfsstat4 {
+	c.touch()
 	s := c.session()
 	res := c.w.compound(1, "DESTROY_SESSION", &nfsv4.NfsArgop4_OP_DESTROY_SESSION{OpdestroySession: nfsv4.DestroySession4args{DsaSessionid: s.id}})
 	if res.Status == nfsv4.NFS4_OK {
@@ -779,6 +949,7 @@ func (c *client41) destroySession(f failer) nfsv4.Nfsstat4 {
 }
 
 func (c *client41) destroyClientid(f failer) nfsv4.Nfsstat4 {
+	c.touch()
 	w := c.w
 	res := w.compound(1, "DESTROY_CLIENTID", &nfsv4.NfsArgop4_OP_DESTROY_CLIENTID{OpdestroyClientid: nfsv4.DestroyClientid4args{DcaClientid: c.id}})
 	if res.Status == nfsv4.NFS4_OK {
@@ -908,6 +1079,8 @@ func (w *world) reachable(l *fakeLeaf) bool {
 // refused presents a state ID of client c through a session of client
 // via in a way it was not issued for.
 func (c *client41) refused(f failer, via *client41, how, what string, leaf *fakeLeaf, sid nfsv4.Stateid4) {
+	c.touch()
+	via.touch()
 	w := c.w
 	for _, k := range []ioKind{ioRead, ioWrite} {
 		s := via.session()
